@@ -82,7 +82,8 @@ CLAIM = {
     "design_ref": "DESIGN.md §4 C03",
 }
 PROPS_FILE = "AdaptixProofs/Props/C03.lean"
-LEAN_TARGETS = ["AdaptixProofs.Props.C03", "drv_c03"]
+EXTRA_PROPS_FILES = ["AdaptixProofs/Props/C03NameStyle.lean"]
+LEAN_TARGETS = ["AdaptixProofs.Props.C03", "AdaptixProofs.Props.C03NameStyle", "drv_c03"]
 RULE = ("programs = (model, name_mapping recipe) pairs with 1-5 fields over dataclass (incl. inheritance) / TypedDict / class with "
         "**kwargs, and hand-made (shape, crown, extra move) triples; per program the systematic inputs: valid datum, each "
         "leaf absent / ill-typed, each container node replaced by 7-9 wrong kinds / emptied / shortened / a str, unknown "
@@ -2701,6 +2702,8 @@ def run(ctx: Ctx):
     suite_models(ctx, real, drv, ctx.budget(190, 1800), n_combo=ctx.budget(4, 8))
     from harness.props import c03_nested
     c03_nested.suite_nested(ctx, real, ctx.budget(NESTED_QUICK, NESTED_THOROUGH), drv)
+    from harness.props import c03_namestyle
+    c03_namestyle.suite(ctx, drv, ctx.budget(300, 6000), exhaustive_len=ctx.budget(5, 6))
     ctx.extra["oracle_cases_skipped"] = ctx.dist.get("oracle-skipped", 0)
     # ./check starts the directed search only when no oracle failure at all was seen; the listed known finding is
     # seen on every run, so a broken correspondence is followed up here
@@ -2822,6 +2825,9 @@ def replay(ctx: Ctx, case) -> bool:
     real = Real()
     before = len(ctx.failures)
     suite = case.get("suite")
+    if suite == "name-style":
+        from harness.props import c03_namestyle
+        return c03_namestyle.replay(ctx, case)
     prog = copy.deepcopy(case.get("prog"))
     if suite == "gen-load":
         cr = CrownReal(real)
